@@ -195,15 +195,35 @@ def evaluate(e, env):
 
 
 def _scipy_subclasses(vd):
-    """two ScipyDistribution subclasses, created the documented way (they are part of C05/C11's
-    quantifier; virocon ships the base class only)"""
+    """three ScipyDistribution subclasses, created the two documented ways (they are part of C05/C11's
+    quantifier; virocon ships the base class only): by `scipy_dist_name` (gamma: one shape, beta: two shapes)
+    and by `scipy_dist` (Gumbel: a scipy distribution WITHOUT shape parameters, only loc and scale)"""
+    import scipy.stats as sts
+
     out = []
     for cname, dname in (("GammaScipyDistribution", "gamma"), ("BetaScipyDistribution", "beta")):
         out.append(type(cname, (vd.ScipyDistribution,), {"scipy_dist_name": dname}))
+    out.append(type("GumbelScipyDistribution", (vd.ScipyDistribution,), {"scipy_dist": sts.gumbel_r}))
     return out
 
 
+# documented parameter order (constructor / positional call order, and the order of the Lean formulas' arguments);
+# independent of what the code under test reports as `.parameters`: for a ScipyDistribution subclass the documented
+# order is scipy's "(shape(s), loc, scale)"
+DOC_PARAMS = {
+    "WeibullDistribution": ["alpha", "beta", "gamma"], "LogNormalDistribution": ["mu", "sigma"],
+    "NormalDistribution": ["mu", "sigma"], "LogNormalNormFitDistribution": ["mu_norm", "sigma_norm"],
+    "ExponentiatedWeibullDistribution": ["alpha", "beta", "delta"],
+    "GeneralizedGammaDistribution": ["m", "c", "lambda_"], "VonMisesDistribution": ["kappa", "mu"],
+    "GammaScipyDistribution": ["a", "loc", "scale"], "BetaScipyDistribution": ["a", "b", "loc", "scale"],
+    "GumbelScipyDistribution": ["loc", "scale"],
+}
+
 _FAMS = {}
+# family name -> (predicate, text) if the family cannot be driven by name on the tree under test: the plain constructor
+# `Family()` raises ("constructs"), or its parameter NAMES are not the documented ones ("documented_parameters").
+# Reported once by C05 / C11; the concrete streams skip such a family (the generated tables still describe it).
+FAMILY_ERRORS = {}
 
 
 def families():
@@ -217,8 +237,24 @@ def families():
             vd.LogNormalNormFitDistribution, vd.ExponentiatedWeibullDistribution,
             vd.GeneralizedGammaDistribution, vd.VonMisesDistribution,
         ] + _scipy_subclasses(vd)
-        _FAMS[key] = [(c.__name__, c, list(c().parameters)) for c in classes]
+        fams = []
+        for c in classes:
+            try:
+                ps = list(c().parameters)
+            except Exception as e:  # noqa: BLE001  (reported by C05 `constructs`; the table rows of the family all raise)
+                FAMILY_ERRORS[c.__name__] = ("constructs", f"{c.__name__}() raises {type(e).__name__}: " + str(e)[:160])
+                ps = list(DOC_PARAMS[c.__name__])
+            if sorted(ps) != sorted(DOC_PARAMS[c.__name__]):
+                FAMILY_ERRORS[c.__name__] = ("documented_parameters", f"{c.__name__}().parameters lists {ps}, the "
+                                             f"documented parameters are {DOC_PARAMS[c.__name__]}")
+            fams.append((c.__name__, c, ps))
+        _FAMS[key] = fams
     return _FAMS[key]
+
+
+def live_families():
+    """the families whose plain constructor works on the tree under test (the others are reported once, by name)"""
+    return [f for f in families() if f[0] not in FAMILY_ERRORS]
 
 
 def family(name):
@@ -333,6 +369,10 @@ def _mk_instance(cls, params, fixed, given=None, order=0):
         return cls(**vals, **fx)
     if order == 1:
         return cls(**fx, **vals)
+    if order == 3:
+        # every free parameter explicitly declared NOT fixed (`f_<q>=None`, the documented default) next to its value
+        free = {"f_" + params[q]: None for q in range(len(params)) if q not in fixed}
+        return cls(**vals, **fx, **free)
     return cls(*[S("arg", p) for p in given], **fx)
 
 
@@ -409,7 +449,7 @@ def ctor_rows():
         k = len(params)
         full = list(range(k))
         for F in subsets(k):
-            for given, order in ((full, 0), (full, 1), (full, 2), ([], 0)):
+            for given, order in ((full, 0), (full, 1), (full, 2), (full, 3), ([], 0)):
                 row = {"fam": name, "given": given, "fixed": F, "order": order, "result": None, "exc": None}
                 try:
                     inst = _mk_instance(cls, params, F, given, order)
@@ -715,7 +755,21 @@ def random_theta(rng, name, wide=True):
     if name == "BetaScipyDistribution":
         return {"a": lu(-0.3, 0.8), "b": lu(-0.3, 0.8), "loc": float(rng.choice([0.0, u(-2, 2)])),
                 "scale": lu(-1, 1)}
+    if name == "GumbelScipyDistribution":
+        loc = float(rng.choice([0.0, u(-2, 2), lu(-1, 3), -lu(-1, 3)])) if wide else float(rng.choice([0.0, u(-2, 2)]))
+        return {"loc": loc, "scale": lu(-2, 2) if wide else lu(-1, 1)}
     raise KeyError(name)
+
+
+def random_values(rng, name, wide=True):
+    """`random_theta` as a list aligned with the parameter numbering the code under test reports for the family
+    (`params[p]`), matched BY NAME: a value drawn for `scale` is never handed over as `loc` when the tree under test
+    lists its parameters in another order (then the documented-order oracle of C05 speaks, not a nan in the harness)"""
+    th = random_theta(rng, name, wide=wide)
+    _, params = family(name)
+    if sorted(params) == sorted(th):
+        return [th[pn] for pn in params]
+    return list(th.values())
 
 
 def run_get_row_concrete(row, arg, farg, expl, dep, x):
